@@ -246,21 +246,22 @@ impl Serialize for TextResource {
             //if there are any changes, we write to the standoff file
             if self.changed() {
                 //get the actual filename on disk given the work directory:
-                let filename = get_filepath(filename, self.config.workdir())
+                let filepath = get_filepath(filename, self.config.workdir())
                     .expect("get_filepath must succeed");
                 debug(self.config(), || {
                     format!(
                         "TextResource::serialize(): to stand-off file {:?}",
-                        filename
+                        filepath
                     )
                 });
                 //note: Path::ends_with() compares whole path components, so test the extension on the string
-                if filename.to_string_lossy().ends_with(".json") {
-                    let result = self.to_json_file(&filename.to_string_lossy(), self.config()); //this reinvokes this function after setting config.standoff_include
+                if filepath.to_string_lossy().ends_with(".json") {
+                    //(to_json_file resolves the name against the working directory itself: a relative working directory must not be applied twice)
+                    let result = self.to_json_file(filename, self.config()); //this reinvokes this function after setting config.standoff_include
                     result.map_err(|e| serde::ser::Error::custom(format!("{}", e)))?;
                 } else {
                     //plain text
-                    std::fs::write(filename, &self.text)
+                    std::fs::write(filepath, &self.text)
                         .map_err(|e| serde::ser::Error::custom(format!("{}", e)))?;
                 }
                 self.mark_unchanged();
